@@ -823,11 +823,28 @@ impl<'a> Gen<'a> {
             items.push(mk(y, yv));
             items.push(mk(x, xv));
         }
-        let n = if self.r.chance(1, 50) { 7 + self.r.below(58) } else { self.r.below(7) };
+        let sweep = self.cfg.value_mode == ValueMode::Sweep;
+        // stratified over sentence shapes in sweep mode: unit count and unit kinds are the digits of
+        // the run index, so a batch walks through all unit sequences of length <= 6 evenly
+        let mut digits = self.run / 7;
+        let n = if sweep {
+            self.run % 7
+        } else if self.r.chance(1, 50) {
+            7 + self.r.below(58)
+        } else {
+            self.r.below(7)
+        };
         let mut first = true;
         let mut after14 = false;
         for _ in 0..n {
-            match self.r.below(6) {
+            let pick = if sweep {
+                let d = digits % 6;
+                digits /= 6;
+                d
+            } else {
+                self.r.below(6)
+            };
+            match pick {
                 0 | 5 => {
                     items.push(mk(6, self.value7(ch)));
                     after14 = false;
